@@ -11,7 +11,7 @@ TB = [
     "signatures are abstract records; JSON / gzip / Python zipfile / sqlite3 / csv bytes are NOT modelled: a member's content is the list of records it decodes to, equal bytes <=> equal records (serialisation deterministic and injective: property C09), a CSV manifest reads back as the rows written",
     "member names are structured (<md5>, <md5>_n); the string rendering signatures/<md5>.sig.gz[_n] is assumed injective (32 hex digits)",
     "Python zipfile semantics used: writestr on a read-only ZipFile raises ValueError; a second writestr under an existing name is what read(name) returns afterwards; set(namelist()) has one entry per name (modelled as replace-or-append)",
-    "translator (harness/translators/store.py, strict/fail closed): @add_loader priorities and _load_database shape, _save_classes + matches predicates, required_keys and the assignments of make_manifest_row, MAX_SQLITE_INT and the two's-complement shape of convert_hash_to/from, the shapes of _RwZipStorage._content_matches/_generate_filename/save/flush (which zip objects the name search consults selects the model variant)",
+    "translator (harness/translators/store.py, strict/fail closed): @add_loader priorities and _load_database shape, _save_classes + matches predicates, required_keys and the assignments of make_manifest_row, MAX_SQLITE_INT and the two's-complement shape of convert_hash_to/from, the shapes of _RwZipStorage._content_matches/_generate_filename/save/flush, whether SqliteIndex.insert records the seed, whether LCA_Database._signatures creates an entry for every idx (each of these three selects the model variant the driver runs; theorem source_has_the_repaired_variants pins the repaired ones)",
     "hand-written model (lean/SmVerif/Model/Storage.lean) tied to /repo by the `store` stream: real files written by SaveSignaturesToLocation / SBT.save / LCA_Database.save under .build/tmp and reloaded by load_file_as_index, load_file_as_signatures, a sig-collect style standalone manifest, a path list, the directory loader (differential testing)",
     "max_hash for a scaled value (LCA downsampling) is supplied by the harness with the formula tied in C03; md5 values are computed by the harness (hashlib) and checked against the implementation's on every `sig` op",
 ]
@@ -23,7 +23,7 @@ AS = [
 RULE = ("a set of 0..11 signatures (pools of 1-4 hash sets and 3-4 names, so equal md5 under different names and exact duplicates are frequent; "
         "empty sketches; hashes 0, 2^63-1, 2^63, 2^64-1, max_hash; flat / abundance / num / other scaled / other k / protein) saved to one format "
         "(zip and sqldb and directory in 1-3 create-then-append sessions; .sig/.sig.gz; SBT; LCA), then members, manifest, len and every way of "
-        "reloading (generic, standalone manifest, path list, directory); plus loader-choice probes on real files of 15 kinds and convert_hash round trips. "
+        "reloading (generic, standalone manifest in CSV and in SQLite format, path list, directory), for zips also the manifest rebuilt from the members (sig manifest); plus loader-choice probes on real files of 15 kinds and convert_hash round trips. "
         "non-trivial = >= 2 signatures defined and a reload that returned something (or >= 2 loader probes); distinct = distinct op lists")
 
 FLAVOURS = ["zip", "zipappend", "sqldb", "dir", "sigfile", "sbt", "lca", "kind", "zip", "zipappend", "sqlseed", "sbt", "lca", "dir"]
